@@ -5,7 +5,8 @@
    with K = 2 (the tight constant, recorded in the evidence), Ordered, RightError.
 2. code->spec under a virtual clock: for every operation, every packet it awaits (the device falls silent after
    j packets, j = 0 .. all), every stall kind (transport timeout, end-of-stream empty reads, trickling bytes,
-   traffic for other streams, unexpected commands) and a grid of transport/read/total timeouts including None, 0
+   traffic for other streams incl. an endless series of late CLSEs of unknown streams, unexpected commands,
+   a stream that only sends empty WRITEs to a command with a whole-command limit) and a grid of transport/read/total timeouts including None, 0
    and negatives, the run is one trace judged by TraceTimed: Bounded (K = 6, 12 for pull, plus the total timeout
    and, for connect, the auth timeout), RightError, NoFabrication, Ordered; a transport-call budget is the watchdog.
 """
@@ -39,17 +40,27 @@ def make_stall(kind, dev):
             core.clock.advance(tmo * 0.9)
             out, state['buf'] = state['buf'][:1], state['buf'][1:]
             return out
-        if kind in ('foreign', 'unexpected'):
-            core.clock.advance(min(tmo, 0.3))
-            if kind == 'foreign' or not dev.all_streams:
-                return wire.frame('OKAY', 0x7777, 0x7776)[:n]
-            st = dev.all_streams[-1]
-            return wire.frame('SYNC', st.rid, st.lid)[:n]
+        if kind in ('foreign', 'unexpected', 'foreign_clse', 'empty_wrte'):
+            # whole frames, handed out in the pieces the host asks for
+            if not state['buf']:
+                core.clock.advance(min(tmo, 0.3))
+                st = dev.all_streams[-1] if dev.all_streams else None
+                if kind == 'foreign_clse':
+                    state['n'] = state.get('n', 0) + 1          # a late CLSE of a stream this connection has never heard of, again and again
+                    state['buf'] = wire.frame('CLSE', 0x7000 + state['n'] % 7, 0x7100 + state['n'] % 5)
+                elif kind == 'foreign' or st is None:
+                    state['buf'] = wire.frame('OKAY', 0x7777, 0x7776)
+                elif kind == 'empty_wrte':
+                    state['buf'] = wire.frame('WRTE', st.rid, st.lid, b'')   # the stream is alive and says nothing (each one is acknowledged by the host)
+                else:
+                    state['buf'] = wire.frame('SYNC', st.rid, st.lid)
+            out, state['buf'] = state['buf'][:n], state['buf'][n:]
+            return out
         raise ValueError(kind)
     return stall, state
 
 
-def run_case(mode, op, j, kind, tt, rt, total, seed, healthy=None):
+def run_case(mode, op, j, kind, tt, rt, total, seed, healthy=None, net='mem'):
     dev = simdev.SimDevice(seed=seed)
     dev.shell_scripts[b'shell:x'] = [b'a1', b'b2']
     dev.shell_scripts[b'exec:x'] = [b'a1', b'b2']
@@ -57,7 +68,7 @@ def run_case(mode, op, j, kind, tt, rt, total, seed, healthy=None):
     dev.fs.dirs['/d'] = [(b'n1', 1, 2, 3), (b'n2', 4, 5, 6)]
     if op == 'connect_auth':
         dev.auth = simdev.AuthPolicy(mode='auth', maxdata=4096, accept_sig=lambda i, s, t: False, pubkey='accept')
-    sess = env.Session(mode, dev, tick=TICK, default_transport_timeout_s=None)
+    sess = env.Session(mode, dev, tick=TICK, default_transport_timeout_s=None, net=net)
     core = sess.core
     core.max_calls = 6000
     stall, state = make_stall(kind, dev)
@@ -135,17 +146,21 @@ def body(ctx):
     import os
     import shutil
     ktight = None
-    for K in (2, 3):
+    for K, skip in ((2, False), (3, True), (3, False)):
         wd = tlc.workdir('timed')
         try:
             with open(os.path.join(wd, 'MCTimed.tla'), 'w') as f:
                 f.write(tlc.mc_module('MCTimed', 'AdbTimed', dict(MC_Grid=tlc.Raw('{0-1, 0, 1, 2, 3, 5}'))))
-            cfg = tlc.cfg_text(constants={'Grid': '<- MC_Grid', 'None': '99', 'H': '2', 'PMax': '2', 'K': str(K)}, invariants=['Bounded', 'Ordered', 'RightError'], deadlock=True)
+            cfg = tlc.cfg_text(constants={'Grid': '<- MC_Grid', 'None': '99', 'H': '2', 'PMax': '2', 'K': str(K), 'SkipTotal': 'TRUE' if skip else 'FALSE'}, invariants=['Bounded', 'Ordered', 'RightError'], deadlock=True)
             r = tlc.run('MCTimed', cfg, wd=wd, module_dir=wd)
         finally:
             shutil.rmtree(wd, ignore_errors=True)
-        ctx.add_tlc(r, 'AdbTimed K=%d' % K)
+        ctx.add_tlc(r, 'AdbTimed K=%d%s' % (K, ' (sanity mutation: no whole-command check)' if skip else ''))
         names = [v['name'] for v in r.violations]
+        if skip:
+            if 'Bounded' not in names:
+                raise tlc.TlcError('vacuity: Bounded must fail when data packets skip the whole-command check')
+            continue
         if K == 2 and 'Bounded' not in names:
             raise tlc.TlcError('vacuity: Bounded with K=2 is expected to fail')
         if K == 3:
@@ -171,12 +186,35 @@ def body(ctx):
                 if ctx.quick:
                     rng.shuffle(combos)
                     combos = combos[:6]
+                # a stream that keeps sending empty WRITEs is a stall only for a command with a whole-command limit
+                extra = [('foreign_clse', tt, rt, None) for tt in (None, 0.5) for rt in (1, 3)] if not op.startswith('connect') else []
+                if op in ('shell', 'exec_out', 'root') and j >= 1:
+                    extra += [('empty_wrte', tt, 3, total) for tt in (None, 0.5) for total in (2, 0)]
+                if ctx.quick:
+                    rng.shuffle(extra)
+                    extra = extra[:2]
+                combos += extra
                 for (kind, tt, rt, total) in combos:
                     ev, _, _ = run_case(mode, op, j, kind, tt, rt, total, ctx.seed, healthy=val)
                     # with every packet delivered the call must still return the healthy value; if it raises early because
                     # a timeout value is <= 0 that is a timeout error, which Bounded/RightError judge
                     traces.append([ev])
                     meta.append(dict(kind='stall', mode=mode, op=op, after_packets=j, stall=kind, transport_timeout_s=tt, read_timeout_s=rt, timeout_s=total))
+    # the same grid over the library's own TCP transports on a virtual network (their select / async_timeout waits are in the loop)
+    for mode in ('sync', 'async'):
+        for op in ['connect', 'shell', 'stat', 'pull', 'push']:
+            hv, nfr, val = run_case(mode, op, 10 ** 6, 'raise', None, 3, None, ctx.seed, net='tcp')
+            if hv['outcome'] != 'ret':
+                raise tlc.TlcError('healthy %s %s over the virtual TCP transport does not return: %s' % (mode, op, hv['cls']))
+            for j in range(nfr + 1):
+                combos = list(itertools.product(kinds + ([] if op == 'connect' else ['foreign_clse']), [None, 0, 0.5, 2], [0, 1, 3], [None]))
+                if ctx.quick:
+                    rng.shuffle(combos)
+                    combos = combos[:4]
+                for (kind, tt, rt, total) in combos:
+                    ev, _, _ = run_case(mode, op, j, kind, tt, rt, total, ctx.seed, healthy=val, net='tcp')
+                    traces.append([ev])
+                    meta.append(dict(kind='stall', net='TcpTransport on a virtual network', mode=mode, op=op, after_packets=j, stall=kind, transport_timeout_s=tt, read_timeout_s=rt, timeout_s=total))
     ver, r2 = tlc.validate_traces('TraceTimed', traces)
     ctx.add_tlc(r2, 'TraceTimed over %d stalled operations' % len(traces))
     okn = 0
